@@ -240,7 +240,8 @@ def prove_manager(src_root, op, ex: Explorer):
     def path(ctx: Ctx):
         it = mk(src_root, ctx)
         install_env(it, ctx, [])
-        t, lock = mk_transfer(it, ctx, 'DOWNLOAD', [])
+        t, lock = mk_transfer(it, ctx, 'DOWNLOAD', [], with_tasks=True)
+        slot_tasks = [t.attrs['_remotely_queue_task'], t.attrs['_transfer_task']]
         present = ctx.choose(2, 'present') == 1
         result = ctx.choose(2, 'result') == 1
         calls = []
@@ -264,6 +265,10 @@ def prove_manager(src_root, op, ex: Explorer):
         n_calls = len(calls)
         ctx.prove(f'C03.manager.{tag}.one-request', n_calls == (1 if present else 0) and
                   not [a for o, a in it.write_log if o is t or o is mgr])
+        # the manager itself touches nothing: whether tasks are cancelled is the decision of the state object (a refused request cancels
+        # nothing, C03.<S>.<m>.refused-is-write-free)
+        ctx.prove(f'C03.manager.{tag}.cancels-nothing-itself', not any(x.cancel_requested for x in slot_tasks),
+                  'the manager cancelled a task of the transfer before / without the state object deciding')
         if op == 'abort' and calls:
             reason = calls[0][1].get('reason', calls[0][0][0] if calls[0][0] else None)
             ctx.prove(f'C03.manager.{tag}.reason', unbox(reason) == 'Requested', f'abort reason {reason!r}')
